@@ -115,6 +115,21 @@ class Batch:
         self.row += len(m)
         return f'A{r0}:{chr(64 + ncol)}{r0 + len(m) - 1}'
 
+    def place_matrix_at(self, m, col0):
+        """like place_matrix, the block starting at column number col0"""
+        from vlib.ref import col_letters
+        r0 = self.row
+        for i, row in enumerate(m):
+            for j, v in enumerate(row):
+                a = f'{col_letters(col0 + j)}{r0 + i}'
+                if isinstance(v, tuple) and v[0] == 'err':
+                    self.inputs[a] = '=' + v[1]
+                elif v is not None:
+                    self.inputs[a] = v
+        self.row += len(m)
+        return (f'{col_letters(col0)}{r0}:'
+                f'{col_letters(col0 + len(m[0]) - 1)}{r0 + len(m) - 1}')
+
     def add(self, text, meta):
         self.items.append((text, meta))
         if len(self.items) >= 300:
@@ -517,6 +532,23 @@ def run(ctx):
                         return T.Array([[to_lib(v) for v in row]
                                         for row in a])
                     return a
+                # the two errors in one ROW of a range that does not start in
+                # column A (G:H, F:I, G:I, AD:AH, W:Z ...): left to right
+                if name != 'CONCATENATE':
+                    for col0, width in ((7, 2), (6, 4), (7, 3), (30, 5),
+                                        (23, 4), (15, 3), (31, 2)):
+                        row_ = [one] * width
+                        row_[0], row_[-1] = e, e2
+                        if width > 3:
+                            row_[1] = e
+                            row_[0] = one
+                        rg_ = B.place_matrix_at([row_], col0)
+                        B.add(f'={name}({rg_})',
+                              {'kind': 'expect_error', 'code': code,
+                               'key': (name, 'two-in-a-row', col0, width,
+                                       code, 'formula')})
+                        ctx.event('aggregate_cases')
+                        ctx.event('shifted_range_two_error_cases')
                 for lname, args in mixed.items():
                     got = monitors.call_outcome(f, *[to_lib(a) for a in args])
                     ctx.event('aggregate_cases')
